@@ -244,6 +244,7 @@ def delivery_post(pre, post, a, ret):
     x = z3.Int(pre.st.uniq("x"))
     return [
         ("pending_uncancellations_only_grow_and_only_for_a_cancelled_origin", z3.ForAll([x], z3.And(pending_(post, x) >= pending_(pre, x), z3.Implies(pending_(post, x) > pending_(pre, x), cc(pre, x))), patterns=[pending_(post, x)])),
+        ("futures_change_only_from_pending_to_cancelled", z3.ForAll([x], z3.Or(pre.f("Future", "state", x) == post.f("Future", "state", x), z3.And(pre.f("Future", "state", x) == 0, post.f("Future", "state", x) == 3)), patterns=[post.f("Future", "state", x)])),
         ("existing_timer_handles_untouched", z3.ForAll([x], z3.Implies(z3.Select(pre.arr("$", "alloc"), x), z3.And(hwhen(post, x) == hwhen(pre, x), hcancelled(post, x) == hcancelled(pre, x), pre.f("Handle", "cb", x) == post.f("Handle", "cb", x))), patterns=[hwhen(post, x)])),
     ]
 
@@ -518,6 +519,29 @@ def others_untouched(pre, post, s, extra=()):
     return z3.ForAll([x], z3.Implies(z3.And(x != s, *[x != e for e in extra]), z3.And(*[pre.f(C, n, x) == post.f(C, n, x) for n in keep])), patterns=[post.f(C, "_active", x), post.f(C, "_cancel_called", x), post.f(C, "_parent_scope", x), post.f(C, "_host_task", x)])
 
 
+def _pats(pat, *terms):
+    """explicit patterns only when the formula is *assumed* (the post-state arrays are then plain constants); a goal
+    is negated and skolemised, and a pattern over Store-terms is rejected by z3"""
+    return {"patterns": list(terms)} if pat else {}
+
+
+def futures_only_get_cancelled(pre, post, pat=True):
+    x = z3.Int(pre.st.uniq("x"))
+    return z3.ForAll([x], z3.Or(pre.f("Future", "state", x) == post.f("Future", "state", x), z3.And(pre.f("Future", "state", x) == 0, post.f("Future", "state", x) == 3)), **_pats(pat, post.f("Future", "state", x)))
+
+
+def other_sets_untouched(pre, post, s, pat=True):
+    """enter / exit touch the member set of the scope and of its parent and the parent's child set, no other set"""
+    o = z3.Int(pre.st.uniq("o"))
+    par = parent(pre, s)
+    mine = [pre.f(C, "_tasks", s), z3.If(par != 0, pre.f(C, "_tasks", par), pre.f(C, "_tasks", s))]
+    kids = z3.If(par != 0, pre.f(C, "_child_scopes", par), 0)
+    return z3.And(
+        z3.ForAll([o], z3.Implies(z3.And(o != mine[0], o != mine[1]), z3.And(z3.Select(pre.arr(MEMBERS.cls, "mem"), o) == z3.Select(post.arr(MEMBERS.cls, "mem"), o), z3.Select(pre.arr(MEMBERS.cls, "card"), o) == z3.Select(post.arr(MEMBERS.cls, "card"), o))), **_pats(pat, z3.Select(post.arr(MEMBERS.cls, "mem"), o), z3.Select(post.arr(MEMBERS.cls, "card"), o))),
+        z3.ForAll([o], z3.Implies(o != kids, z3.And(z3.Select(pre.arr(CHILDREN.cls, "mem"), o) == z3.Select(post.arr(CHILDREN.cls, "mem"), o), z3.Select(pre.arr(CHILDREN.cls, "card"), o) == z3.Select(post.arr(CHILDREN.cls, "card"), o))), **_pats(pat, z3.Select(post.arr(CHILDREN.cls, "mem"), o), z3.Select(post.arr(CHILDREN.cls, "card"), o))),
+    )
+
+
 class ScopeCall:
     """call-site form of a CancelScope method contract (custom shapes: the outcome depends on the exception object)"""
 
@@ -563,6 +587,8 @@ def call_exit(ip, args, kwargs):
     post = H(st)
     st.assume(exit_bookkeeping(pre, post, s, cur))
     st.assume(others_untouched(pre, post, s, extra=()))
+    st.assume(futures_only_get_cancelled(pre, post))
+    st.assume(other_sets_untouched(pre, post, s))
     st.assume(z3.And(shield(post, s) == shield(pre, s), deadline_(post, s) == deadline_(pre, s), pre.f("TaskStates", "map", TS_SINGLETON) == post.f("TaskStates", "map", TS_SINGLETON)))
     st.assume(caught(post, s) == z3.Or(caught(pre, s), z3.And(own, has_anyio)))
     if k == 2:
@@ -587,6 +613,7 @@ def enter_post(pre, post, s, cur):
         shield(post, s) == shield(pre, s),
         deadline_(post, s) == deadline_(pre, s),
         z3.Implies(cc(pre, s), cc(post, s)),
+        z3.Implies(cc(post, s), z3.Or(cc(pre, s), z3.And(deadline_(pre, s) != INF, now(pre) >= deadline_(pre, s)))),
     )
 
 
@@ -605,6 +632,11 @@ def call_enter(ip, args, kwargs):
     post = H(st)
     st.assume(enter_post(pre, post, s, cur))
     st.assume(others_untouched(pre, post, s))
+    st.assume(futures_only_get_cancelled(pre, post))
+    # parent(post, s) is the previous current scope: its member / child sets change, no other
+    x_par = parent(post, s)
+    o = z3.Int(st.uniq("o"))
+    st.assume(z3.ForAll([o], z3.Implies(z3.And(o != pre.f(C, "_tasks", s), z3.Or(x_par == 0, o != pre.f(C, "_tasks", x_par))), z3.And(z3.Select(pre.arr(MEMBERS.cls, "mem"), o) == z3.Select(post.arr(MEMBERS.cls, "mem"), o), z3.Select(pre.arr(MEMBERS.cls, "card"), o) == z3.Select(post.arr(MEMBERS.cls, "card"), o))), patterns=[z3.Select(post.arr(MEMBERS.cls, "mem"), o), z3.Select(post.arr(MEMBERS.cls, "card"), o)]))
     return args[0]
 
 
@@ -748,6 +780,8 @@ class ExitUnit(ScopeUnit):
         # ---- C05 exit bookkeeping (whole post-state)
         ip.ctx.oblige(f"{nm}/post:scope_left.bookkeeping", exit_bookkeeping(pre, post, s, cur), "post")
         ip.ctx.oblige(f"{nm}/post:scope_left.other_scopes_untouched", others_untouched(pre, post, s), "post")
+        ip.ctx.oblige(f"{nm}/post:scope_left.no_other_set_touched", other_sets_untouched(pre, post, s, pat=False), "post")
+        ip.ctx.oblige(f"{nm}/post:scope_left.futures_only_get_cancelled", futures_only_get_cancelled(pre, post, pat=False), "post")
         ip.ctx.oblige(f"{nm}/post:pending_uncancellations_settled", z3.Or(pending_(post, s) == 0, z3.Not(own)), "post")
         # ---- C04: absorb iff own cancellation, not visible parent cancellation, and an AnyIO cancellation
         swallowed = exc is None and ret is not None and ip.truth(ret) is not False
@@ -798,6 +832,10 @@ class EnterUnit(ScopeUnit):
             return
         ip.ctx.oblige(f"{nm}/post:entered", enter_post(pre, post, s, cur), "post")
         ip.ctx.oblige(f"{nm}/post:entered.other_scopes_untouched", others_untouched(pre, post, s), "post")
+        ip.ctx.oblige(f"{nm}/post:entered.futures_only_get_cancelled", futures_only_get_cancelled(pre, post, pat=False), "post")
+        o = z3.Int(ip.st.uniq("o"))
+        x_par = parent(post, s)
+        ip.ctx.oblige(f"{nm}/post:entered.no_other_member_set_touched", z3.ForAll([o], z3.Implies(z3.And(o != pre.f(C, "_tasks", s), z3.Or(x_par == 0, o != pre.f(C, "_tasks", x_par))), z3.And(z3.Select(pre.arr(MEMBERS.cls, "mem"), o) == z3.Select(post.arr(MEMBERS.cls, "mem"), o), z3.Select(pre.arr(MEMBERS.cls, "card"), o) == z3.Select(post.arr(MEMBERS.cls, "card"), o)))), "post")
         # C06: a deadline that has already passed cancels on entry; otherwise the timer is armed for the deadline
         passed = z3.And(deadline_(pre, s) != INF, now(pre) >= deadline_(pre, s))
         ip.ctx.oblige(f"{nm}/post:past_deadline_cancels_immediately_on_entry", z3.Implies(passed, cc(post, s)), "post")
